@@ -96,11 +96,17 @@ def _slice_inner(slize: Slice) -> SliceInner:
     parent = slize.parent
     index = slize.index
 
+    # Get the parent's width through the helper which also covers port and bundle references
+    from .elab.helpers.width import width as width_of
+
+    parent_width = width_of(parent)
+
     if isinstance(index, int):
-        if index >= parent.width:
+        width = parent_width
+        if index >= width or index < -width:
             raise ValueError(f"Out-of-bounds index {index} into {parent}")
         if index < 0:
-            index += parent.width
+            index += width
         return SliceInner(top=index + 1, bot=index, step=1, width=1)
 
     if isinstance(index, slice):
@@ -113,41 +119,20 @@ def _slice_inner(slize: Slice) -> SliceInner:
         step = 1 if step is None else step
         if step == 0:
             raise ValueError(f"slice step cannot be zero")
-        elif step < 0:
-            # Here `top` gets a "+1" since `start` is *inclusive*, while `bot` gets "+1" as `stop` is *exclusive*.
-            top = (
-                parent.width
-                if start is None
-                else start + 1
-                if start >= 0
-                else parent.width + start + 1
-            )
-            bot = (
-                0
-                if stop is None
-                else stop + 1
-                if stop >= 0
-                else parent.width + stop + 1
-            )
-            # Align bot with the step
-            bot += (top - bot) % abs(step)
+
+        # Normalize negative, absent, and out-of-range bounds exactly as Python sequences do.
+        start, stop, step = slice(start, stop, step).indices(parent_width)
+        width = len(range(start, stop, step))
+        if width < 1:
+            raise ValueError(f"Empty slice {index} into {parent}")
+
+        # `top` is exclusive and `bot` inclusive, for either sign of `step`.
+        # Negative steps select `top - 1` first, positive steps select `bot` first.
+        last = start + (width - 1) * step
+        if step > 0:
+            top, bot = last + 1, start
         else:
-            # Here `start` and `stop` match `top` and `bot`'s inclusive/exclusivity.
-            # No need to add any offsets.
-            top = (
-                parent.width
-                if stop is None
-                else stop
-                if stop >= 0
-                else parent.width + stop
-            )
-            bot = 0 if start is None else start if start >= 0 else parent.width + start
-            # Align top with the step
-            top -= (top - bot) % step
-
-        width = (top - bot) // step
-
-        # Create and return our Slice. More checks are done in its constructor.
+            top, bot = start + 1, last
         return SliceInner(top=top, bot=bot, step=step, width=width)
 
     # Shouldn't be reachable, but blow up if we (somehow) get here.
